@@ -45,4 +45,22 @@ for name,fn in [('findings',table_findings),('seeded',table_seeded),('lemmas',ta
     if b in s:
         s=s[:s.index(b)+len(b)]+'\n'+fn()+'\n'+s[s.index(e):]
 open(f'{root}/DESIGN.md','w').write(s)
+# full per-lemma catalogue
+out=['# Lemma catalogue (generated from lemmas/*.json by tools/gen_design_tables.py)','',
+     'One lemma = one harness entry point (`entry`) in the package directory `dir`, decided by bounded symbolic execution of the real code.',
+     'Parameters are the tier bounds read with `verifParam`; `stubs` are the assumptions that are part of the claim.','']
+for f in sorted(glob.glob(f'{root}/lemmas/*.json')):
+    ls=json.load(open(f))
+    if not ls: continue
+    out.append(f"## {ls[0]['property']}")
+    for l in ls:
+        if l.get('disabled'): continue
+        q=(l.get('quick') or {}).get('params'); t=(l.get('thorough') or {}).get('params')
+        out.append(f"- **{l['id']}** (`{l['dir']}` · `{l['entry']}`): {l.get('doc','')}")
+        out.append(f"  - bounds: {l.get('bounds','')}")
+        out.append(f"  - quick params: {json.dumps(q) if q is not None else 'not in quick tier'}; thorough params: {json.dumps(t) if t is not None else 'same as quick'}")
+        if l.get('opts'): out.append(f"  - options: {json.dumps(l['opts'])}")
+        if l.get('stubs'): out.append('  - stubs/assumptions: ' + '; '.join(l['stubs']))
+    out.append('')
+open(f'{root}/LEMMAS.md','w').write('\n'.join(out))
 print('tables regenerated')
